@@ -119,7 +119,7 @@ pub fn run(tier: Tier, seed: u64) -> i32 {
         caps: vec![0, 1],
         tmp: true,
     };
-    let (n_small, n_medium, n_boundary) = tier.pick((190, 30, 20), (3000, 500, 400));
+    let (n_small, n_medium, n_boundary) = tier.pick((190, 30, 20), (9000, 1500, 800));
     prop_search(&ctx, "small", n_small, || gen_case(small.clone()), test_case);
     if !ctx.stopped() {
         prop_search(&ctx, "medium", n_medium, || gen_case(medium.clone()), test_case);
@@ -129,11 +129,11 @@ pub fn run(tier: Tier, seed: u64) -> i32 {
     }
     if !ctx.stopped() {
         let wide = CaseParams { circ: CircParams::wide(2, 4), all_scheds: false, caps: vec![0, 1], tmp: true };
-        prop_search(&ctx, "wide", tier.pick(24, 400), || gen_case(wide.clone()), test_case);
+        prop_search(&ctx, "wide", tier.pick(24, 1200), || gen_case(wide.clone()), test_case);
     }
     if !ctx.stopped() {
         let regs = CaseParams { circ: CircParams::huge_regs(2, 3), all_scheds: false, caps: vec![0, 1], tmp: true };
-        prop_search(&ctx, "huge_regs", tier.pick(12, 120), || gen_case(regs.clone()), test_case);
+        prop_search(&ctx, "huge_regs", tier.pick(12, 300), || gen_case(regs.clone()), test_case);
     }
     if tier == Tier::Thorough && !ctx.stopped() {
         let huge = CaseParams {
